@@ -463,7 +463,9 @@ def exFLRW : Env ℚ :=
     gammadown3 := vec3 (vec3 4 0 0) (vec3 0 4 0) (vec3 0 0 4),
     gammaup3 := vec3 (vec3 (1 / 4) 0 0) (vec3 0 (1 / 4) 0) (vec3 0 0 (1 / 4)),
     Kdown3 := vec3 (vec3 (-6) 0 0) (vec3 0 (-6) 0) (vec3 0 0 (-6)),
-    Kup3 := vec3 (vec3 (-3 / 8) 0 0) (vec3 0 (-3 / 8) 0) (vec3 0 0 (-3 / 8)) }
+    Kup3 := vec3 (vec3 (-3 / 8) 0 0) (vec3 0 (-3 / 8) 0) (vec3 0 0 (-3 / 8)),
+    Ktrace := -9 / 2, kappa := 2, Lambda := 3 / 4, rho_n := 3, Stresstrace_n := 3,
+    Stressdown3_n := vec3 (vec3 4 0 0) (vec3 0 4 0) (vec3 0 0 4) }
 
 example :
     let dtG : Fin 3 → Fin 3 → ℚ := vec3 (vec3 12 0 0) (vec3 0 12 0) (vec3 0 0 12)
@@ -487,6 +489,33 @@ example :
   · intro s; cases3 <;> cases3 <;> (simp only [exFLRW, Env.zero, Fin.sum_univ_three, core_unfold]; norm_num)
   · cases3 <;> cases3 <;>
       (simp only [dtG, exFLRW, Env.zero, lieDD, pd2, dβ, Fin.sum_univ_three, core_unfold]; norm_num)
+  · simp only [exFLRW, Env.zero, core_unfold]; norm_num
+
+/-- the hypotheses of `dtKtrace_is_dt_trace` are satisfiable with every term contributing: the same FLRW point with
+`κ = 2`, `Λ = 3/4`, `ρ = 3`, `S_ij = γ_ij` satisfies the Hamiltonian constraint (`K² − K_ijK^ij = 27/2 = 2κρ + 2Λ`), the ADM
+equation gives `∂_tK_ij = −2δ_ij`, and `dtKtrace = 3·((−3/4)(−6) + (1/4)(−2)) = 12`. -/
+example :
+    let dtU : Fin 3 → Fin 3 → ℚ := vec3 (vec3 (-3 / 4) 0 0) (vec3 0 (-3 / 4) 0) (vec3 0 0 (-3 / 4))
+    let dtKd : Fin 3 → Fin 3 → ℚ := vec3 (vec3 (-2) 0 0) (vec3 0 (-2) 0) (vec3 0 0 (-2))
+    let Ric : Fin 3 → Fin 3 → ℚ := fun _ _ => 0
+    Hamiltonian__dflt_matter exFLRW = 0
+    ∧ exFLRW.Ktrace = Ktrace exFLRW
+    ∧ exFLRW.A2_bssnok = (∑ i, ∑ j, exFLRW.Kdown3 i j * exFLRW.Kup3 i j) - (1 / 3) * exFLRW.Ktrace ^ 2
+    ∧ exFLRW.Stresstrace_n = ∑ i, ∑ j, exFLRW.gammaup3 i j * exFLRW.Stressdown3_n i j
+    ∧ (∀ i j, dtU i j = dtgammaup3 exFLRW i j)
+    ∧ (∀ i j, dtKd i j = ADM.dtKdown exFLRW.betaup3 (dβ exFLRW) (pd2 exFLRW.D exFLRW.Kdown3) exFLRW.Kdown3
+        exFLRW.gammadown3 exFLRW.gammaup3 exFLRW.DDalpha Ric exFLRW.Stressdown3_n exFLRW.alpha exFLRW.Ktrace exFLRW.kappa
+        exFLRW.rho_n exFLRW.Stresstrace_n exFLRW.Lambda i j)
+    ∧ dtKtrace__dflt_matter exFLRW = 12 := by
+  intro dtU dtKd Ric
+  refine ⟨?_, ?_, ?_, ?_, ?_, ?_, ?_⟩
+  · simp only [exFLRW, Env.zero, core_unfold]; norm_num
+  · simp only [exFLRW, Env.zero, core_unfold]; norm_num
+  · simp only [exFLRW, Env.zero, Fin.sum_univ_three, core_unfold]; norm_num
+  · simp only [exFLRW, Env.zero, Fin.sum_univ_three, core_unfold]; norm_num
+  · cases3 <;> cases3 <;> (simp only [dtU, exFLRW, Env.zero, core_unfold]; norm_num)
+  · cases3 <;> cases3 <;>
+      (simp only [dtKd, Ric, ADM.dtKdown, lieDD, pd2, dβ, exFLRW, Env.zero, Fin.sum_univ_three, core_unfold]; norm_num)
   · simp only [exFLRW, Env.zero, core_unfold]; norm_num
 
 /-- the product-rule hypothesis `Deriv` is satisfiable (over ℚ only by the zero operator; over a differential
